@@ -616,8 +616,18 @@ def docs_cases(ctx, n):
         ctx.case(fam, pdf, nontrivial=bool(warr) or mode != "none", sample={"mode": mode, "enc": enc, "W": repr(warr)[:120], "glyphs": [(g[0], g[1]) for g in got[:4]]})
         if mode == "japan":
             want = "".join(chars)
-            if "".join(g[0] for g in got) != want:
+            if len(got) != len(chars):
                 ctx.violation(fam, {"pdf": pdf.hex(), "string": want}, want, "".join(g[0] for g in got), "text of a cp932-encoded string under 90ms-RKSJ")
+            else:
+                from pdfminer.cmapdb import CMapDB
+                cm = CMapDB.get_cmap(enc)
+                for ch, g in zip(chars, got):
+                    if g[0] != ch:
+                        cid = list(cm.decode(ch.encode("cp932")))[0]
+                        # a character of the recorded data deviation is the same finding seen through a document
+                        ctx.violation("predefined-data", {"cmap": enc, "collection": "Adobe-Japan1", "cid": cid, "char": ch,
+                                                          "key": "Adobe-Japan1:%d" % cid, "pdf": pdf.hex()}, ch, g[0],
+                                      "text of a cp932-encoded character under %s" % enc)
             continue
         if len(got) != len(cids):
             ctx.violation(fam, {"pdf": pdf.hex(), "cids": cids}, len(cids), len(got), "number of glyphs differs from the number of two-byte codes")
